@@ -96,6 +96,17 @@ impl<T: Obsable> Obsable for TResult<T> {
         }
     }
 }
+impl Obsable for String {
+    fn obs(&self) -> Obs {
+        // strings are only observed by the simulator-owned containers' logs; a hash is enough
+        let mut h = 0xcbf2_9ce4_8422_2325u64;
+        for b in self.bytes() {
+            h ^= b as u64;
+            h = h.wrapping_mul(0x0000_0100_0000_01B3);
+        }
+        Obs::B(h)
+    }
+}
 impl Obsable for Tracked {
     fn obs(&self) -> Obs {
         Obs::T(self.origin, self.inst)
